@@ -54,6 +54,25 @@ CLAIMS = {
         "ASan+UBSan+LSan with poisoned red zones around scratch chunks. Memory safety of the 43k lines of C is observed on the explored "
         "inputs, not proved.",
    technique="Lean 4 invariant/refinement proof of the allocator model + exact replay on the real allocator + sanitizer-observed op sweep", design="5/C11"),
+ "C03": dict(
+   text="Proof: the tree checker checkTree (Cmr/Tree.lean) accepts a dumped tree iff every node passes checkRecompose and checkFlags; "
+        "checkRecompose = ok is unfolded, per node kind, into the declarative statement of the property: leaves have no children; children "
+        "exist, are over the same field and have consistent matrices; a pivot child equals the GF(2)/GF(3) pivot sequence applied to the "
+        "parent; a series-parallel node's reduction list is a valid reduction sequence whose remainder is the child (or empty: the matrix "
+        "is series-parallel); 1-sum blocks partition rows and columns; 2-, delta-, Y- and 3-sum children satisfy the documented composition "
+        "formula of C12 (composeX ... = ok P with P a line permutation of the parent given by the child maps). Series-parallel nodes with a TU "
+        "remainder are TU (partial TU certification; sum and pivot nodes not covered). Tie: every tree returned by CMRtuTest / CMRregularTest "
+        "(all strategies and option masks, small exhaustive and seeded matrices, sums of R10/R12/network blocks) and by "
+        "complete/refine histories is dumped in full (types, flags, matrices, child maps, special lines, pivots, reductions read through "
+        "seymour_internal.h) and run through the checker.",
+   technique="Lean 4 theorems unfolding the executable tree checker into the property's clauses + validation of every returned decomposition tree", design="5/C03"),
+ "C04": dict(
+   text="Proof: checkFlags = ok iff FlagsOk (declarative): graph certificates of leaves reproduce the node's matrix (sound via C05's certificate "
+        "theorem), stored determinant minors have |det| >= 2 and refute TU (Mathlib sense), positive regularity/graphicness/cographicness "
+        "flags imply the same for all children as the documented propagation rules say, node types fix their flags, R10 nodes are line "
+        "permutations of a representation of R10 (which is regular / TU: closed facts), and for nodes within oracle size the flags agree "
+        "with the brute-force oracles (regular <-> TU signing exists, graphic <-> graph exists). Tie: the same tree dumps as C03, all nodes.",
+   technique="Lean 4 theorems unfolding the flag checker (certificates sound, minors refute TU, propagation rules) + validation of every node of every returned tree", design="5/C04"),
  "C05": dict(
    text="Proof: the certificate checker is sound and complete w.r.t. its declarative reading (checkGraphCert = ok iff forest/coforest partition the "
         "edge set, the forest is spanning, and every entry M[i][j] is 1 exactly when forest edge i lies on the duplicate-free tree walk between "
